@@ -20,7 +20,8 @@ from props import c13_gen as G
 
 MANIFEST = {
     "text": "PARTIAL. Explicit-heap Coq model of the library's copy-then-mutate mechanisms (every container-handling "
-            "Property.clean incl. ObservableProperty/ExtensionsProperty, _STIXBase.__init__ with dict/list kwargs, "
+            "Property.clean incl. ObservableProperty/ExtensionsProperty, _STIXBase.__init__ with dict/list kwargs and "
+            "custom_properties=, "
             "dict_to_stix2, parse_observable, new_version/revoke, remove_custom_stix, expand/compress and "
             "add/clear/remove/set granular markings (incl. the marking_ref=/lang= options), object markings, the "
             "stix2.markings API dispatch, utils.deduplicate, copy.copy, Bundle (objects "
